@@ -40,7 +40,11 @@ def spell(seq, walk):
 
 
 def run_batch(job):
-    bid, seq, links, recs = job  # recs: dict(id, walk, ps, pe, read, ops, frag, long)
+    bid, seq, links, recs = job[:4]  # recs: dict(id, walk, ps, pe, read, ops, frag, long)
+    cores = job[4] if len(job) > 4 else 1
+    import readers as _rd
+
+    _rd.CASE = str(bid)
     d = tempfile.mkdtemp(prefix="align_")
     try:
         gfa = os.path.join(d, "g.gfa")
@@ -67,7 +71,7 @@ def run_batch(job):
                 lines.append("\t".join(cols + opt))
         write_text(gaf, "\n".join(lines) + "\n")
         out = os.path.join(d, "o.gaf")
-        res = run_cli(["realign", gaf, gfa, fa, "-o", out, "-c", "1"], timeout=600)
+        res = run_cli(["realign", gaf, gfa, fa, "-o", out, "-c", str(cores)], timeout=600)
         import gc
 
         gc.collect()
@@ -214,6 +218,10 @@ def run(ctx):
                   {"id": "exact", "walk": [[">", "b1"]], "ps": 2, "pe": 60002, "read": big[2:60002], "ops": ["="] * 60000, "frag": 0},
                   {"id": "below", "walk": [[">", "b1"]], "ps": 5, "pe": 60004, "read": big[5:60004], "ops": ["="] * 59999, "frag": 2},
                   {"id": "short", "walk": [[">", "b1"], [">", "b2"]], "ps": 60000, "pe": 60016, "read": big[60000:] + "ACGTAC", "ops": ["="] * 16, "frag": 1}]))
+    # more records than one round of worker batches holds (1000 per core): 2,100 short reads with 1 and with 2 cores
+    for cores in (1, 2):
+        b = random_batch(rnd, f"M{cores}", 2100, big=False)
+        jobs.append(b + (cores,))
     res = pool_map(run_batch, jobs, chunk=1)
     cases = [c for cs in res for c in cs]
     ctx.evaluations += len(cases)
